@@ -22,6 +22,7 @@ enum {
 	LCB_VP_THREAD_PROC_AFTER_LOOP,
 	LCB_VP_THREAD_PROC_AFTER_STOP_STORE,
 	LCB_VP_SHUTDOWN_WAIT_BEFORE_JOIN,
+	LCB_VP_START_TEST_TO_STATE,
 	LCB_VP__COUNT
 };
 
